@@ -1,6 +1,6 @@
 /-
 C15 / C16 — theorems about the GCPMultiEndpoint model (after fixes F15 / F16).
-Every statement holds for every order in which the final status update walks the pool map.
+Every statement holds for every switching delay the MultiEndpoints are configured with.
 -/
 import GcpVerif.Model.GME
 namespace GcpVerif.GME
@@ -25,7 +25,7 @@ theorem foldl_notify_fields (l : List String) (r : String → Bool) (s : St) :
 
 /-- **C16** a rejected update changes nothing: every RPC is routed exactly as before -/
 theorem failed_update_is_identity (s : St) (d : String) (o : Opts) (f : List String) (r : String → Bool)
-    (ord : List String) (h : (update s d o f r ord).2 = false) : (update s d o f r ord).1 = s := by
+    (dl : Int) (h : (update s d o f r dl).2 = false) : (update s d o f r dl).1 = s := by
   unfold update at h ⊢
   by_cases hv : optsValid d o = true
   · simp only [hv, Bool.not_true, Bool.false_eq_true, ↓reduceIte] at h ⊢
@@ -37,13 +37,13 @@ theorem failed_update_is_identity (s : St) (d : String) (o : Opts) (f : List Str
 /-- **C16** invalid options are rejected: default name without options, a MultiEndpoint with an
     empty endpoint list or nil options -/
 theorem invalid_options_rejected (s : St) (d : String) (o : Opts) (f : List String) (r : String → Bool)
-    (ord : List String) (h : optsValid d o = false) : (update s d o f r ord).2 = false := by
+    (dl : Int) (h : optsValid d o = false) : (update s d o f r dl).2 = false := by
   simp [update, h]
 
 /-- **C16** a dial failure at any dial rejects the update -/
 theorem dial_failure_rejected (s : St) (d : String) (o : Opts) (f : List String) (r : String → Bool)
-    (ord : List String) (e : String) (he : e ∈ validEndpoints o) (hnew : e ∉ s.pools) (hf : e ∈ f) :
-    (update s d o f r ord).2 = false := by
+    (dl : Int) (e : String) (he : e ∈ validEndpoints o) (hnew : e ∉ s.pools) (hf : e ∈ f) :
+    (update s d o f r dl).2 = false := by
   unfold update
   by_cases hv : optsValid d o = true
   · simp only [hv, Bool.not_true, Bool.false_eq_true, ↓reduceIte]
@@ -56,8 +56,8 @@ theorem dial_failure_rejected (s : St) (d : String) (o : Opts) (f : List String)
 /-- **C15** after a successful update there is exactly one open pool per endpoint mentioned by any
     configured MultiEndpoint -/
 theorem pools_exact_after_update (s : St) (d : String) (o : Opts) (f : List String) (r : String → Bool)
-    (ord : List String) (h : (update s d o f r ord).2 = true) :
-    ∀ e, e ∈ (update s d o f r ord).1.pools ↔ e ∈ validEndpoints o := by
+    (dl : Int) (h : (update s d o f r dl).2 = true) :
+    ∀ e, e ∈ (update s d o f r dl).1.pools ↔ e ∈ validEndpoints o := by
   unfold update at h ⊢
   by_cases hv : optsValid d o = true
   · simp only [hv, Bool.not_true, Bool.false_eq_true, ↓reduceIte] at h ⊢
@@ -66,7 +66,6 @@ theorem pools_exact_after_update (s : St) (d : String) (o : Opts) (f : List Stri
     · rename_i hnf
       simp only [hnf, Bool.false_eq_true, ↓reduceIte]
       intro e
-      rw [(foldl_notify_fields _ r _).1]
       simp only [List.mem_filter, List.mem_append, List.contains_iff_mem, decide_eq_true_eq]
       constructor
       · intro h'; exact h'.2
